@@ -75,6 +75,37 @@ void sym_inputs(void)
 #endif
 }
 
+/* case split (DESIGN 3): the verbs fall into five classes; -DC0=a -DC1=b ... restricts the
+ * verb of step 0, 1, ... to one class (undefined: any verb).  The plan issues one query
+ * per combination, so together the queries cover every verb sequence; inside a query the
+ * verbs of a class, all arguments and the whole environment stay symbolic.
+ *   0: STAT LAST NOOP RSET DELE   1: LIST   2: UIDL   3: RETR TOP   4: QUIT */
+#ifndef C0
+#define C0 -1
+#endif
+#ifndef C1
+#define C1 -1
+#endif
+#ifndef C2
+#define C2 -1
+#endif
+#ifndef C3
+#define C3 -1
+#endif
+static const int cls_of_step[4] = { C0, C1, C2, C3 };
+#define CLASS_V_STAT 0
+#define CLASS_V_LAST 0
+#define CLASS_V_NOOP 0
+#define CLASS_V_RSET 0
+#define CLASS_V_DELE 0
+#define CLASS_V_LIST 1
+#define CLASS_V_UIDL 2
+#define CLASS_V_RETR 3
+#define CLASS_V_TOP 3
+#define CLASS_V_QUIT 4
+#define WANT(x) (cls_of_step[step < 4 ? step : 3] < 0 || cls_of_step[step < 4 ? step : 3] == CLASS_##x)
+#define LASTSTEP (step == K - 1)
+
 /* ---- small string helpers (bounded) */
 static int streq(const char *a, const char *b)
 {
@@ -193,10 +224,10 @@ void vf__exit(int status)
   }
   CHECK(outlen >= 6 && outb[outlen - 6] == '+' && outb[outlen - 5] == 'O' && outb[outlen - 4] == 'K' && flushed == outlen,
         "QUIT is answered +OK");
-  if (del[0] && !del[1] && isnew[1]) WITNESS("quit_unlinks_1_renames_2");
-  if (del[0] && del[1] && step == K - 1) WITNESS("quit_unlinks_both");
+  if (LASTSTEP && del[0] && !del[1] && isnew[1]) WITNESS("quit_unlinks_1_renames_2");
+  if (LASTSTEP && del[0] && del[1]) WITNESS("quit_unlinks_both");
   if (K >= 3 && !del0[0] && !del0[1] && !del[0] && !del[1] && step == K - 1 && verb[0] == V_DELE && verb[K - 2] == V_RSET) WITNESS("dele_rset_quit_keeps_all");
-  WITNESS("quit");
+  if (LASTSTEP) WITNESS("quit");
   PATH_END();
 #ifdef VERIF_CBMC
   __CPROVER_assume(0);
@@ -228,14 +259,6 @@ static void dispatch(const char *name, char *arg)
   }
   CHECK(0, "verb is in the table");
 }
-
-/* case split (DESIGN 3): with -DONLY=v the query covers the sessions whose LAST command is
- * verb v (earlier commands stay symbolic); the plan issues one query per v */
-#ifdef ONLY
-#define WANT(x) ((x) == ONLY || step + 1 < K)
-#else
-#define WANT(x) 1
-#endif
 
 static void one_step(void)
 {
@@ -270,7 +293,7 @@ static void one_step(void)
       for (i = 0; i < NM; ++i) if (!del[i]) e_entry(i, uidl);
       e('.'); e('\r'); e('\n');
       CHECK(reply_ok() && rest_matches(), "C19: LIST/UIDL shows number and size / unique id of exactly the unmarked messages");
-      if (del[0] && !del[1]) WITNESS("listing_skips_deleted");
+      if (LASTSTEP && del[0] && !del[1]) WITNESS("listing_skips_deleted");
     } else if (valid) {
       es("+OK "); e_entry(n - 1, uidl);
       CHECK(whole_matches() && flushed == outlen, "C19: LIST/UIDL n shows size / unique id of message n");
@@ -287,20 +310,20 @@ static void one_step(void)
     } else {
       CHECK(reply_err(), "C19: RETR/TOP with a bad number (or a vanished file) is refused");
       CHECK(nopen_step == (valid ? 1 : 0), "a refused number opens nothing");
-      if (valid) WITNESS("retr_file_vanished");
+      if (LASTSTEP && valid) WITNESS("retr_file_vanished");
     }
   }
-  else { ASSUME(0); }      /* verb outside this query's case */
+  else { PATH_END(); }     /* verb outside this query's case */
   /* state after the command: marks as in the model, table untouched */
   for (i = 0; i < NM; ++i) {
     CHECK((m[i].flagdeleted != 0) == del[i], "C19: deletion marks = DELE'd and not RSET (refused commands change nothing)");
     CHECK(m[i].fn == fn[i], "C19: numbering is fixed for the session");
   }
   CHECK(m == mtab && numm == NM, "message table untouched");
-  if (v == V_DELE && !valid && n >= 1 && n <= NM) WITNESS("dele_twice_refused");
-  if (v == V_DELE && n > NM) WITNESS("dele_out_of_range_refused");
-  if (v == V_DELE && n == 0) WITNESS("dele_zero_refused");
-  if (v == V_RSET && before[0] && before[1]) WITNESS("rset_unmarks_both");
+  if (LASTSTEP && v == V_DELE && !valid && n >= 1 && n <= NM) WITNESS("dele_twice_refused");
+  if (LASTSTEP && v == V_DELE && n > NM) WITNESS("dele_out_of_range_refused");
+  if (LASTSTEP && v == V_DELE && n == 0) WITNESS("dele_zero_refused");
+  if (LASTSTEP && v == V_RSET && before[0] && before[1]) WITNESS("rset_unmarks_both");
 }
 
 void vmain(void)
